@@ -8,7 +8,8 @@ import sys
 
 ROOT = "/verif"
 names = sys.argv[1:] or sorted(os.listdir(os.path.join(ROOT, "seeded")))
-summary = {}
+sp_ = os.path.join(ROOT, "seeded", "SUMMARY.json")
+summary = json.load(open(sp_)) if os.path.exists(sp_) and sys.argv[1:] else {}
 for name in names:
     d = os.path.join(ROOT, "seeded", name)
     meta_p = os.path.join(d, "meta.json")
